@@ -450,7 +450,14 @@ func checkCalendarRoles(p *Program, r *Report, dim, leap *ssa.Function) {
 			}
 			if uses {
 				// an int parameter with no role yet that is added into the returned sum of month lengths: the day
-				if fn.Signature.Results().Len() == 1 {
+				nNoRole := 0
+				for i, prm := range fn.Params {
+					if b, ok := prm.Type().Underlying().(*types.Basic); ok && b.Info()&types.IsInteger != 0 && cur[i] == "" {
+						nNoRole++
+					}
+				}
+				// only when exactly one integer parameter is left without a role can it be named the day
+				if fn.Signature.Results().Len() == 1 && nNoRole == 1 {
 					for i, prm := range fn.Params {
 						if cur[i] != "" {
 							continue
@@ -626,7 +633,7 @@ func checkCalendarRoles(p *Program, r *Report, dim, leap *ssa.Function) {
 			}
 		}
 	}
-	r.Floor("R19.3", "calendar arguments with a role", n, 4)
+	r.Floor("R19.3", "calendar arguments with a role", n, 2)
 }
 
 
